@@ -427,6 +427,31 @@ func recoverCheck(dir string, op string, size int, old map[string][]byte) (ev re
 	}
 	ev["rejectedImpliesComplete"] = ric
 	_ = h.GetOutbound()
+	// life goes on after the restart: the interrupted message arrives (or is queued) again, this time shorter (the sender
+	// edited it); the folders must still load and hold exactly that version
+	if ev["foldersLoad"] == true && (op == "ProcessInbound" || op == "AddOut") {
+		short := size / 3
+		var rerr error
+		mid, from := "NEWIN0000001", "LA2BBB"
+		if op == "AddOut" {
+			mid, from = "NEWOUT000001", "LA1AAA"
+			rerr = h.AddOut(crashMsg(mid, short, from))
+		} else {
+			rerr = h.ProcessInbound(crashMsg(mid, short, from))
+		}
+		in2, e5 := h.Inbox()
+		out2, e6 := h.Outbox()
+		var m *fbb.Message
+		if op == "AddOut" {
+			m = find(out2, mid)
+		} else {
+			m = find(in2, mid)
+		}
+		if rerr != nil || e5 != nil || e6 != nil || m == nil || !bytes.Equal(publicOf(m), publicOf(crashMsg(mid, short, from))) {
+			ev["foldersLoad"] = false
+			ev["listerr"] = fmt.Sprintf("after the interrupted %s was repeated with a shorter message: err=%v inbox=%v outbox=%v found=%v", op, rerr, e5, e6, m != nil)
+		}
+	}
 	return
 }
 
